@@ -185,7 +185,8 @@ def read_data(fh, mcnp_version, block_type=None, recursion=False, ancestors=()):
             yield from flush_block()
             has_non_comments = False
             # MCNP stops reading at the blank line that ends the data block
-            if block_counter >= 3 and not recursion:
+            # (blocks are counted from the block this file starts in: a file pulled in by a read input too)
+            if first_block + block_counter >= 3:
                 break
             continue
         # if a new input
